@@ -5,7 +5,8 @@ CONSTANTS NC = 128
           MaxOps = 100000
           MaxCrashes = 100000
           SyncEvery = 50
-INVARIANTS TypeOK IndexesAgreeModDev DirtyCoversModDev NoDanglingIndex PinnedPreservedModDev DevReport
+          MaxStale = 100000
+INVARIANTS TypeOK IndexesAgreeModDev DirtyCoversModDev NoDanglingIndex PinnedPreservedModDev RepairRemovesOnlyStale DevReport
 CONSTRAINT TraceConstraint
 POSTCONDITION TracePost
 CHECK_DEADLOCK FALSE
